@@ -59,7 +59,11 @@ impl DestructTuple {
                 elements.iter().map(|ins| &ins.instruction),
             )),
             instruction => {
-                let types = instruction.return_type().flatten_tuple().unwrap();
+                // a value of type `!` never arrives: its would-be components have type `!` too
+                let types = instruction
+                    .return_type()
+                    .flatten_tuple()
+                    .unwrap_or_else(|| self.idents.iter().map(|_| Type::Never).collect());
                 local_variables.extend(zip(self.idents.iter().cloned(), types.iter().cloned()))
             }
         }
